@@ -39,6 +39,9 @@ def work(job):
             continue
         checks = list(meta.get("checks", {})) or [meta["property"]]
         res = {}
+        if os.environ.get("RECHECK_OWN_ONLY"):       # re-run the property's own check only; keep the other outcomes
+            res = {c: v for c, v in meta.get("checks", {}).items() if c != meta["property"]}
+            checks = [meta["property"]]
         for c in checks:
             rr = sh("cd /verif && timeout 1500 ./check %s quick" % c,
                     env=dict(os.environ, VERIF_REPO=wt, VERIF_JOBS=os.environ.get("VERIF_JOBS", "4")))
